@@ -1,5 +1,5 @@
 """Per-property configuration of the checks: families, builds, run counts, evidence rules."""
-import c07
+import c07, c13
 ALL = ['REL', 'SEC', 'DBG']
 
 COMPONENTS = {
@@ -106,5 +106,33 @@ PROPS = {
    'nontrivial': lambda r: r.get('faults_fired', 0) > 0, 'distinct_by': 'event',
    'exhaustive_note': 'fault position k over all OS calls made inside operations of each base workload, single and persistent mode',
    'must_reach': ['os_refused', 'alloc_null'],
+ },
+ 'C14': {
+   'families': [('c14_arena', 1, ALL)],
+   'runs': {'quick': 900, 'thorough': 60000},
+   'rule': 'dedicated exclusive arena of 40/66/70/130 blocks (claims cross bitmap words), 2-4 threads with arena-bound heaps allocating 1-, 2- and 3..7-block objects with purge delays and clock advances; at quiescence the arena must be completely allocatable again; non-trivial = a context switch inside the bitmap functions; distinct = distinct (API hash, hot-switch signature)',
+   'nontrivial': lambda r: sw(r, 'switch_in_bitmap') > 0,
+   'must_reach': ['switch_in_bitmap', 'bitmap_across_claim', 'bitmap_rollback'],
+ },
+ 'C15': {
+   'families': [('c15_arenas', 1, ALL)],
+   'runs': {'quick': 1500, 'thorough': 100000},
+   'rule': 'one or two extra arenas (reserved or donated with unaligned start/size; exclusive or not; committed or not; dirty or zero), default and arena-bound heaps interleaved in 1-3 threads, thread exit and adoption by allocation, by free and by the main thread forced collect; every returned pointer is checked against arena bounds/exclusivity; non-trivial = at least 10 allocations through an arena-bound heap succeeded; distinct = distinct (API hash, hot-switch signature)',
+   'nontrivial': lambda r: r.get('allocs', 0) >= 20,
+ },
+ 'C17': {
+   'families': [('c17_misuse', 1, ['SEC', 'DBG'])],
+   'runs': {'quick': 2000, 'thorough': 100000},
+   'rule': 'histories with injected application faults (second free of a block whose page still holds a live block; a foreign byte just past the requested size; overwritten free-list link of a freed block) in secure and debug builds with the error callback registered; non-trivial = at least one misuse was injected and detected; distinct = distinct API result hash',
+   'nontrivial': lambda r: r.get('misuse_detected', 0) > 0,
+   'must_reach': ['misuse_detected'],
+ },
+ 'C13': {
+   'families': [],
+   'jobgen': c13.jobgen,
+   'runs': {'quick': 0, 'thorough': 0},
+   'budget_s': {'quick': 150, 'thorough': 3000},
+   'rule': 'configuration = one row of a pairwise covering array over 17 option/OS dimensions (purge delay/decommit/extend/mult, eager commit + delay, arena eager commit/reserve/disallow, reclaim-on-free, abandoned-page purge, segment target, large OS pages, overcommit mode, MADV_FREE keep/discard, placement, clock advance per 7 operations); every row is run for every family of C01-C05/C12 (+ one C02 and one C09 family); oracles: those of the families plus, at every purge-type OS call, disjointness from every live block of the shadow heap, and the SIGSEGV oracle for touching decommitted memory. non-trivial = run executed >= 10 allocations; distinct = distinct (API hash, schedule signature)',
+   'nontrivial': lambda r: r.get('allocs', 0) >= 10,
  },
 }
